@@ -48,10 +48,7 @@ def main(pid=PID):
         build_driver('release')
     except Exception as e:   # noqa
         rep.inconclusive.append('replay driver does not build: %s' % str(e)[-300:])
-    jobs = []
-    Lmax = 6 if quick else 8
-    for L in range(0, Lmax + 1):
-        jobs.append(('parse_formula on %d symbolic tokens' % L, unit_parser, (L, 2, dict(timeout=250 if quick else 3000))))
+    jobs, Lmax = parsecore.parser_jobs(quick)
     import tokencore
     jobs += tokencore.jobs(quick)
     jobs.append(('selftest:binary operators parsed left-associatively', unit_parser, (5, 2, dict(kinds=['Var', 'And', 'Or'], mutate=('parse_sub_formula', 'parser::SymbolicBDD::parse_sub_formula(copy _1)', 'parser::SymbolicBDD::parse_simple_sub_formula(copy _1)')))))
@@ -72,7 +69,7 @@ def main(pid=PID):
                 replay_parse(rep, pid, name, r['cex'])
             else:
                 tokencore.replay_token(rep, pid, name, r['cex'])
-    rep.bounds = {'token_sequence_length': '0..%d tokens + Eof, every kind at every position (31-kind alphabet, 2 variable atoms, 64-bit constant)' % Lmax,
+    rep.bounds = {'token_sequence_length': '0..%d tokens + Eof, every kind at every position (31-kind alphabet, 2 variable atoms, 64-bit constant); 8..%d tokens over %d focused sub-alphabets of 7..12 kinds' % (Lmax, 9 if quick else 11, len(parsecore.FOCUS)),
                   'token_text': 'matched text an unknown string of <= 8 characters in the capture group\'s language'}
     rep.assumptions = ['library models (slice iterator, Peekable, Option/Result, Box, Vec push, format!/io::Error as opaque)',
                        'reference grammar in checks/refparser.py (README + property text)',
